@@ -10,6 +10,7 @@ CLAIMED = {
  "C19": ("proof", "Theorems for every weight vector and every draw (Properties/C19.v): entry i is chosen by exactly w_i of the total draws, zero weights never, positive always reachable, lookup beyond the total fails. The model (Model/Weights.v, the actual bisection) is compared with the real find/choose on every run, with the draw behind each choose() learnt by re-seeding math/rand and every draw value covered for totals <= 96.", "5 C19", "Coq proof (induction over the scale + counting lemma) + vm_compute correspondence against the real code"),
 }
 CLAIMED["C07"] = ("proof", "Theorems for every NumOps instance (Properties/C07.v): every reachable history (any sequence of add/remove/update/close/reopen) has 100 slots, newest first, no gaps; AddFlight is exactly 'stable sorted insert, keep newest 100' and refuses exactly a flight older than all 100; Update/EndTrip/ReopenTrip change markers only and never a traveller's trip end; remove after add restores a non-full history. The model (actual bisection, copy semantics, oldestChange bookkeeping) is compared with the real TripHistory after every step of generated scripts under the C07 projection (flight data + order of all 100 slots, traveller trip-end indices), with a Go ordered-list oracle as monitor.", "5 C07", "Coq proof (ordering invariant by induction over operations, refinement to sorted insert) + vm_compute correspondence")
+CLAIMED["C05"] = ("proof", "Theorems for every NumOps instance (Properties/C05.v): for every reachable history, every parameter set and every update time, a successful Update leaves nobody mid-trip whose marker-defined open trip started more than TripLength whole days ago or holds FlightsInTrip flights (loop invariant relating the tracked tripState to the markers + window lemma for startOfTrip); an ended trip is a no-op for Update and stays ended over any number of later updates. The model is compared with the real TripHistory after every step (full state hash incl. markers and oldestChange, MidTrip, tripStartEndLength, startOfTrip), and Go monitors state both halves of C05 on the real code.", "5 C05", "Coq proof (loop invariant over the update fold, induction over operations) + vm_compute correspondence")
 PENDING = {}
 props = [json.loads(l) for l in open(os.path.join(V, "properties.jsonl"))]
 checks, na = [], []
